@@ -100,3 +100,24 @@ Theorem c02_throttle_cancel_safe : forall l, Client.Loop.lstep l Client.Loop.Tak
   forall l', Client.Loop.lstep l Client.Loop.TakeCancelled = Client.Loop.Stepped l' ->
     Client.Loop.pending l' = Client.Loop.pending l /\ Client.Loop.chan l' = Client.Loop.chan l /\ Client.Loop.st l' = Client.Loop.st l.
 Proof. exact Client.LoopProofs.throttle_cancel_safe. Qed.
+
+(** ---- the v5 event loop (Client/Loop5.v): resume after a failure, ported.  The resumed session's
+    CONNACK must be one the state machine accepts (receive-maximum absent or >= 1). *)
+From Rumqtt Require Client.Loop5 Client.Loop5Proofs.
+
+Theorem c02_resume_v5 : forall l rm tam, Inv5 (Client.Loop5.st5 l) -> Client.Loop5.connected5 l = true -> rm <> Some 0 ->
+  exists l1 l2, Client.Loop5.lstep5 l Client.Loop5.Fail5 = Client.Loop5.Stepped5 l1 /\
+    Client.Loop5.lstep5 l1 (Client.Loop5.Reconnect5 true rm tam) = Client.Loop5.Stepped5 l2 /\
+    forall r, holds5 (Client.Loop5.st5 l) r -> List.In r (Client.Loop5.pending5 l2).
+Proof. exact Client.Loop5Proofs.resume_holds_all5. Qed.
+
+Theorem c02_resume_needs_no_user_action_v5 : forall l r rest, Client.Loop5.pending5 l = r :: rest ->
+  Client.Loop5.next_request5 l = Some (r, Client.Loop5.mkLoop5 (Client.Loop5.st5 l) rest (Client.Loop5.chan5 l) (Client.Loop5.connected5 l) (Client.Loop5.wire5 l) (Client.Loop5.yielded5 l)) /\
+  (Client.Loop5.connected5 l = true -> s5_events (Client.Loop5.st5 l) = [] -> s5_inflight (Client.Loop5.st5 l) < s5_max (Client.Loop5.st5 l) ->
+   s5_collision (Client.Loop5.st5 l) = None -> Client.Loop5.take_enabled5 l = true).
+Proof. exact Client.Loop5Proofs.pending_first5. Qed.
+
+Theorem c02_throttle_cancel_safe_v5 : forall l, Client.Loop5.lstep5 l Client.Loop5.TakeCancelled5 = Client.Loop5.Stepped5 l /\
+  forall l', Client.Loop5.lstep5 l Client.Loop5.TakeCancelled5 = Client.Loop5.Stepped5 l' ->
+    Client.Loop5.pending5 l' = Client.Loop5.pending5 l /\ Client.Loop5.chan5 l' = Client.Loop5.chan5 l /\ Client.Loop5.st5 l' = Client.Loop5.st5 l.
+Proof. exact Client.Loop5Proofs.throttle_cancel_safe5. Qed.
